@@ -10,7 +10,37 @@ pub mod common {
     pub mod function {
 //@include frag/common_function.tpl
     }
+    // the framing halves and the physical layer as the session start sees them: opaque values that remember which framing they
+    // speak, under which TLS configuration the layer was established and which authorization was established for it
+    pub mod frame {
+        use vstd::prelude::*;
+        pub struct FrameWriter { pub ghost is_tcp: bool }
+        pub struct FramedReader { pub ghost is_tcp: bool }
+        impl FrameWriter {
+            #[verifier::external_body]
+            pub fn tcp() -> (r: Self) ensures r.is_tcp { unimplemented!() }
+            #[verifier::external_body]
+            pub fn rtu() -> (r: Self) ensures !r.is_tcp { unimplemented!() }
+        }
+        impl FramedReader {
+            #[verifier::external_body]
+            pub fn tcp() -> (r: Self) ensures r.is_tcp { unimplemented!() }
+            #[verifier::external_body]
+            pub fn rtu_request() -> (r: Self) ensures !r.is_tcp { unimplemented!() }
+        }
+    }
+    pub mod phys {
+        use vstd::prelude::*;
+        use crate::server::task::AuthorizationType;
+        pub struct PhysLayer { pub ghost tls_by: Option<int>, pub ghost auth: AuthorizationType }
+        impl PhysLayer {
+            // a plain TCP layer: no TLS, and no authorization was established for it
+            #[verifier::external_body]
+            pub fn new_tcp(socket: crate::shims::net2::TcpStream) -> (r: Self) ensures r.tls_by is None, r.auth is None { unimplemented!() }
+        }
+    }
 }
+//@trusted FrameWriter::tcp / FramedReader::tcp / PhysLayer::new_tcp in the accept-loop unit: opaque constructors (the real ones are under contract in the framing / proto units)
 pub mod decode {
 //@include frag/decode.tpl
 }
@@ -30,8 +60,31 @@ pub mod shims {
 }
 pub mod server {
     pub mod task {
+        use vstd::prelude::*;
+        use std::sync::Arc;
         use crate::decode::DecodeLevel;
+        use crate::server::handler::{AuthorizationHandler, RequestHandler, ServerHandlerMap};
+        use crate::common::frame::{FrameWriter, FramedReader};
+        use crate::common::phys::PhysLayer;
+        use crate::error::RequestError;
+        use crate::shims::tokio;
 //@item rodbus/src/server/task.rs | ServerCommand
+//@item rodbus/src/server/task.rs | AuthorizationType
+        // the session task as the session start sees it (its real code is under contract in the proto unit).  The preconditions of
+        // `run` ARE the session-start policy [C05, C08, C09]: a session speaks MBAP on both halves and runs over a layer only with the
+        // authorization that was established for that very layer (none for plain TCP; for TLS whatever the handshake produced)
+        pub struct SessionTask<T> { pub ghost auth: AuthorizationType, pub ghost writer_tcp: bool, pub ghost reader_tcp: bool, pub _p: core::marker::PhantomData<T> }
+        impl<T> SessionTask<T> where T: RequestHandler {
+            #[verifier::external_body]
+            pub fn new(handlers: ServerHandlerMap<T>, auth: AuthorizationType, writer: FrameWriter, reader: FramedReader,
+                       commands: tokio::sync::mpsc::Receiver<ServerCommand>, decode: DecodeLevel) -> (r: Self)
+                ensures r.auth == auth, r.writer_tcp == writer.is_tcp, r.reader_tcp == reader.is_tcp,
+            { unimplemented!() }
+            #[verifier::external_body]
+            pub async fn run(&mut self, io: &mut PhysLayer) -> (r: RequestError)
+                requires old(self).writer_tcp, old(self).reader_tcp, old(io).auth == old(self).auth,
+            { unimplemented!() }
+        }
     }
     pub mod types {
 //@include frag/server_types.tpl
@@ -57,8 +110,25 @@ pub mod serial {
 }
 pub mod tcp {
     pub mod tls {
-        // opaque TLS configuration (its construction is the subject of the tls unit)
-        pub struct TlsServerConfig { pub x: u8 }
+        use vstd::prelude::*;
+        use std::sync::Arc;
+        use crate::server::handler::AuthorizationHandler;
+        use crate::server::task::AuthorizationType;
+        use crate::common::phys::PhysLayer;
+        // opaque TLS configuration (its construction and its handle_connection are the subject of the tls unit)
+        pub struct TlsServerConfig { pub ghost id: int }
+        impl TlsServerConfig {
+            // assumed here, proved in the tls unit: a layer comes only out of a handshake under this configuration, and the
+            // authorization returned with it is none without a handler, else that handler with the role of the peer's certificate
+            #[verifier::external_body]
+            pub async fn handle_connection(&mut self, socket: crate::shims::net2::TcpStream, auth_handler: Option<Arc<dyn AuthorizationHandler>>)
+                -> (r: Result<(PhysLayer, AuthorizationType), String>)
+                ensures final(self).id == old(self).id,
+                    r matches Ok(p) ==> p.0.tls_by == Some(old(self).id) && p.0.auth == p.1
+                        && (auth_handler is None ==> p.1 is None)
+                        && (auth_handler matches Some(h) ==> p.1 is Handler && p.1->Handler_0 == h),
+            { unimplemented!() }
+        }
     }
     pub mod server {
 //@include frag/tcp_server_tracker.tpl
